@@ -766,6 +766,17 @@ Lemma s3_witness :
   /\ replay_validated (run_ops v_s3 (crash v_s3 64 s3_hist) 3 s3_more) = None.
 Proof. vm_compute. repeat split; try reflexivity. discriminate. Qed.
 
+(* the flush decision: if EventLog::append left output-chunk frames of session / task streams in the BufWriter
+   (`ff := false`), an acknowledged append would not be on disk when the process dies right after the call *)
+Definition v_nf : ver := {| fw := true; fr := true; ff := false |}.
+Definition nf_hist : list op := [OEnsure 0 300; OSess 0 100].
+Lemma nf_witness :
+  env_runb v_nf init 0 nf_hist = true
+  /\ In 4 (acks (crash v_nf 1000 nf_hist))
+  /\ cfid 4 (frames_of (truth (crash v_nf 1000 nf_hist))) = 0
+  /\ cfid 4 (frames_of (truth (crash fixed 1000 nf_hist))) = 1.
+Proof. vm_compute. repeat split; try reflexivity. right. left. reflexivity. Qed.
+
 (* open finding (read side of S3): after the crash the full sidecar is a well-formed PROPER prefix of the
    thread's truth stream, and replay_events serves it *)
 Lemma stale_witness :
